@@ -152,6 +152,14 @@ func drawC09(t *rapid.T) *Case {
 	p.Args = drawCommonArgs(t)
 	cps, metas := DrawFront(t, FrontOpts{MinClients: 1, MaxClients: 4, MaxReqs: 3, HeaderGen: drawFwdHeaders, Segment: true, SchemeHTTPPct: 25, FillCanonCachePct: 35})
 	p.Clients = cps
+	if drawBool(t, "refuse", 20) {
+		// 1-3 of the proxy's connection attempts to the back-end are refused: whatever the proxy
+		// does about that, a request that reaches the back-end carries the forwarding headers
+		// of the request the client sent
+		for k := rapid.IntRange(1, 3).Draw(t, "nrefuse"); k > 0; k-- {
+			p.Faults.RefuseDial = append(p.Faults.RefuseDial, rapid.IntRange(1, 6).Draw(t, "refuseat"))
+		}
+	}
 	p.Tape, p.Tail = drawTape(t, 64)
 	c := &Case{Plan: p, Metas: metas, Oracle: oracleC09}
 	c.Summary = defaultSummary(p, metas)
